@@ -29,7 +29,9 @@ def cases(tier, seed):
     for k in range(n):
         r = random.Random("C10/%d/%s/%d" % (seed, tier, k))
         wbw, pw = RATIOS[k % len(RATIOS)]
-        c = dict(kind="wb2native", wbw=wbw, pw=pw, base=r.choice([0, 0, 0x1000, 0x40000000]), cls=CLASSES[(k // len(RATIOS)) % len(CLASSES)],
+        c = dict(kind="wb2native", wbw=wbw, pw=pw,
+                 # incl. a base that is a multiple of the bus word but not of the native word (narrow path: lanes shift)
+                 base=r.choice([0, 0, 0x1000, 0x40000000, 0x1000 + 3 * (wbw // 8)]), cls=CLASSES[(k // len(RATIOS)) % len(CLASSES)],
                  nacc=r.randint(50, 110), cmd_ready_prob=r.choice([1.0, 0.7, 0.3]), extra_lat=r.choice([(0, 0), (0, 8), (0, 30)]),
                  long_stall=r.choice([0, 0, 0.01]), gap=r.choice([0, 0, 2, 8]), seed="C10/%d/%d" % (seed, k))
         c["name"] = "%04d-wb%d-p%d-%s-%s" % (k, wbw, pw, c["cls"], hex(c["base"]))
